@@ -65,9 +65,10 @@ class Hooks:
 
 # ------------------------------------------------------------------------------------------ program strategy
 OP_CLASSES = {
-    "construct": ["vec_list", "vec_list", "vec_tuple", "table_dict", "table_vecs", "vec_of_vecs", "rshift", "rshift", "lshift"],
+    "construct": ["vec_list", "vec_list", "vec_tuple", "table_dict", "table_vecs", "vec_of_vecs", "rshift", "rshift", "lshift",
+                  "table_dupnames"],
     "derive": ["copy", "slice", "mask", "index", "select", "rows_cols", "transpose", "sort", "join", "aggregate", "window",
-               "math", "compare", "unary", "cast", "fillna", "dropna", "isna", "unique", "proxy", "to_object", "vtranspose"],
+               "math", "compare", "unary", "cast", "fillna", "dropna", "isna", "unique", "proxy", "to_object", "vtranspose", "row_index"],
     "read": ["repr", "fingerprint", "len_shape", "iterate", "dir", "schema", "reduce"],
     "view": ["col_view", "col_view", "attr_view", "name_view"],
     "write": ["set_int", "set_int", "set_slice", "set_mask", "set_index", "tset_cell", "tset_row", "tset_col", "tset_region",
@@ -104,6 +105,7 @@ class World:
         self.tuples = {}
         self.cycles = []
         self.graveyard = 0
+        self.rows = []          # held Row handles (t[i]): (id, row object, typed contents when taken, table entry id)
 
     # ---- pool
     def add(self, obj, origin, view_of=None, depth=0):
@@ -240,6 +242,8 @@ class World:
         vals = self.vals(step, n)
         if step[3] % 7 == 6:
             vals = [_date(2020, 1, 1 + (i % 27)) for i in range(n)]       # a date vector (date -> datetime promotion path)
+            if step[2] % 3 == 0:
+                vals = [None if (step[1] >> (i + 3)) & 1 else x for i, x in enumerate(vals)]     # ... with missing days
         name = VNAMES[step[3] % len(VNAMES)]
         si.info.update(values=vals, name=name)
         self._result(si, self._do(si, lambda: S.Vector(list(vals), name=name)), "fresh")
@@ -270,8 +274,23 @@ class World:
         names = [COLNAMES[(step[3] + i) % len(COLNAMES)] for i in range(k)]
         cols = {nm: [v if i == 0 else (v if not isinstance(v, int) or isinstance(v, bool) else v + 10 * j) for i, v in enumerate(self.vals(step, n))]
                 for j, nm in enumerate(names)}
+        if step[3] % 3 == 2 and n:
+            # the last column holds days, one of them missing (date -> datetime promotion inside a table)
+            cols[names[-1]] = [None if i == step[1] % n else _date(2020, 1, 1 + (i % 27)) for i in range(n)]
         si.info.update(cols=cols)
         self._result(si, self._do(si, lambda: S.Table({nm: list(v) for nm, v in cols.items()})), "fresh")
+        return si
+
+    def op_table_dupnames(self, step):
+        """a table whose stored column names repeat (reachable through joins, >> and renames as well): its later columns
+        are advertised through indexed accessors"""
+        si = StepInfo("table_dupnames", "construct")
+        n = self.length_for(step[1])
+        names = [["a", "a"], ["a", "b", "a"], ["k", "k", "k"], ["a", None, "a"], ["b", "a", "b", "a"]][step[3] % 5]
+        base = self.vals(step, n)
+        cols = [[(v + 10 * j) if isinstance(v, int) and not isinstance(v, bool) else v for v in base] for j in range(len(names))]
+        si.info.update(names=names, cols=cols)
+        self._result(si, self._do(si, lambda: S.Table([S.Vector(list(c), name=nm) for nm, c in zip(names, cols)])), "fresh")
         return si
 
     def op_table_vecs(self, step):
@@ -452,6 +471,22 @@ class World:
         idx = [step[2] % n, step[3] % n]
         si = self._derive("index", a, lambda: a.obj[idx])
         si.info["index"] = idx
+        return si
+
+    def op_row_index(self, step):
+        """t[i]: the program keeps the row it read (a vector derived by indexing)"""
+        a = self.pick(step[1], "table")
+        if a is None or not a.obj.cols() or not len(a.obj):
+            return None
+        n = len(a.obj)
+        i = step[2] % n - (n if step[5] else 0)
+        si = StepInfo("row_index", "derive")
+        si.operands = [a]
+        row = self._do(si, lambda: a.obj[i])
+        si.info["index"] = i
+        if row is not None and type(row).__name__ == "Row":
+            self.rows.append((self.new_token(), row, tuple(freeze(x) for x in row), a.id))
+            del self.rows[:-4]
         return si
 
     def op_select(self, step):
@@ -771,6 +806,9 @@ class World:
             r, c = step[2] % len(t), step[3] % len(t.cols())
             nm = t.column_names()[c]
             ck = nm if (step[5] and isinstance(nm, str) and list(t.column_names()).count(nm) == 1 and self.accessor(t, c)) else c
+            sc = t.cols()[c].schema()
+            if sc is not None and sc.kind is _date and (step[2] + step[3]) % 3:
+                return (r, ck), (_datetime(2021, 2, 3, 4, 5) if step[1] % 2 == 0 else _date(2022, 3, 4)), None
             return (r, ck), self.vals(step, 1)[0], None
         return self._twrite("tset_cell", step, make)
 
@@ -778,7 +816,12 @@ class World:
         def make(t):
             r = step[2] % len(t)
             k = len(t.cols()) + (1 if step[3] % 6 == 0 else 0)
-            return (r if step[5] else (r, slice(None))), self.vals(step, k), None
+            row = self.vals(step, k)
+            for j, c in enumerate(t.cols()):
+                sc = c.schema()
+                if sc is not None and sc.kind is _date and j < len(row):
+                    row[j] = _datetime(2021, 2, 3, 4, 5) if step[1] % 2 == 0 else _date(2022, 3, 4)
+            return (r if step[5] else (r, slice(None))), row, None
         return self._twrite("tset_row", step, make)
 
     def op_tset_col(self, step):
@@ -800,6 +843,9 @@ class World:
         if a is None or not a.obj.cols():
             return None
         i = step[2] % len(a.obj.cols())
+        later = [j for j in range(len(a.obj.cols())) if "__" in (self.accessor(a.obj, j) or "")]
+        if later and step[3] % 2 == 0:
+            i = later[step[2] % len(later)]        # a repeated name: the column behind an indexed accessor
         acc = self.accessor(a.obj, i)
         if acc is None:
             return None
@@ -959,6 +1005,7 @@ def run_program(prog, hooks):
         for e in w.entries:
             e.obj = None
         w.entries = []
+        w.rows = []
         w.cycles = []
         w.tuples = {}
     return w
